@@ -265,6 +265,14 @@ func genPolicy(t *Tape) verifrt.Policy {
 	return p
 }
 
+func init() {
+	verifrt.OnDeadlock = func(why string) {
+		if emergency != nil {
+			emergency(viol(curProp+".deadlock", "deadlock", "the simulated goroutines deadlocked: %s", why))
+		}
+	}
+}
+
 var policyNames = []string{"uniform", "bursty", "pct"}
 
 func schedFingerprint(tr []int32) uint64 {
